@@ -15,6 +15,7 @@ type finding struct {
 	ID       string    `json:"id"`
 	Status   string    `json:"status"`
 	Commit   string    `json:"commit,omitempty"`
+	Fix      string    `json:"fix,omitempty"`
 	What     string    `json:"what"`
 	Scope    string    `json:"scope,omitempty"`
 	Witness  core.Case `json:"witness"`
@@ -28,12 +29,22 @@ func html(src string) map[string]string { return map[string]string{"index.html":
 
 var str = []string{tmplgen.TString}
 
+// landed maps fixed findings to the proposed fix (the lead resolves PENDING to the commit through proposed_fixes/APPLIED.txt).
+var landed = map[string][2]string{
+	"C06-F2": {"PENDING", "C06-string-escaped-backslash.diff"},
+	"C06-F3": {"PENDING", "C06-tag-context-space.diff"},
+	"C06-F4": {"PENDING", "C06-script-type-js-mime.diff"},
+}
+
 func main() {
 	var fs []finding
 	add := func(id, status, scope, what string, w core.Case) {
 		f := finding{Property: "C06", ID: id, Status: status, What: what, Scope: scope, Witness: w}
 		if status == "fixed" {
-			f.Commit = "PENDING"
+			f.Commit, f.Fix = "PENDING", ""
+			if l, ok := landed[id]; ok {
+				f.Commit, f.Fix = l[0], l[1]
+			}
 			f.Scope = ""
 		}
 		fs = append(fs, f)
@@ -102,6 +113,9 @@ func main() {
 	add("C06-F21", "open", tmplgen.ScopeTypedMacroTag,
 		"inside a macro whose explicit result type differs from the format of the file, the lexer returns to the file's context after an HTML tag: the rest of a markdown-typed macro body in an HTML file is escaped as HTML and then converted as Markdown (*a* becomes emphasis); the rest of an html-typed macro body in a Markdown file is escaped as Markdown",
 		c06.Witness("finding:C06-F21", "index.html", html("{% macro M(p string) markdown %}<b>x</b> {{ p }}{% end %}<div>{{ M(v0) }}</div>"), str, s("*a* [l](http://evil.example/)")))
+	add("C06-F22", "open", tmplgen.ScopeRawTextTagQuote,
+		"the content of RCDATA and raw-text elements (title, textarea, xmp, noscript, iframe, ...) is lexed as markup: a tag with an unbalanced quote inside it (<textarea><a title=\"x</textarea>) leaves the lexer in an attribute value, so values in a following script are HTML-escaped into code and unquoted attribute values keep their spaces",
+		c06.Witness("finding:C06-F22", "index.html", html("<textarea><a title=\"x</textarea><script>var c = {{ v0 }};</script><p title={{ v0 }}>x</p>"), str, s("alert(1) onclick")))
 	b, _ := json.MarshalIndent(fs, "", " ")
 	os.WriteFile("props/c06/findings.json", append(b, '\n'), 0o644)
 }
